@@ -27,21 +27,29 @@ inductive Step : State → Event → State → Prop
   | schedAck (s : State) (t : Nat) : s.rpc = .needAck t → Step s .schedAck { s with nextAck := t, rpc := .top }
   | schedBad (s : State) (f t : Nat) : s.rpc = .needBad f t → s.queue.length < badDataCap →
       Step s .schedBad { s with queue := s.queue ++ [(f, t)], rpc := .top }
-  | tickSend (s : State) : s.qpc = .idle → s.nextAck > s.lastAcked →
-      Step s .tick { s with lastAcked := s.nextAck, qpc := .sending s.nextAck [] false }
-  | tickNoop (s : State) : s.qpc = .idle → ¬ s.nextAck > s.lastAcked → Step s .tick s
-  | badRecv (s : State) (h : Range) (tl : List Range) : s.qpc = .idle → s.queue = h :: tl →
-      Step s .badRecv { s with queue := tl, qpc := .composing h.2 [h] }
-  | badMore (s : State) (a : Nat) (rs : List Range) (h : Range) (tl : List Range) :
-      s.qpc = .composing a rs → s.queue = h :: tl →
-      Step s .badMore { s with queue := tl, qpc := .composing (if a < h.2 then h.2 else a) (rs ++ [h]) }
-  | badDone (s : State) (a : Nat) (rs : List Range) : s.qpc = .composing a rs → s.queue = [] →
-      Step s .badDone { s with qpc := .sending a rs true }
-  | sendOk (s : State) (a : Nat) (rs : List Range) (bad : Bool) : s.qpc = .sending a rs bad → s.broken = false →
+  | tick (s : State) : s.qpc = .idle → Step s .tick { s with qpc := .loaded s.nextAck }
+  | badRecvIdle (s : State) (h : Range) (tl : List Range) : s.qpc = .idle → s.queue = h :: tl →
+      Step s .badRecv { s with queue := tl, qpc := .composing h.2 [h] none }
+  | badRecvTick (s : State) (rd : Nat) (h : Range) (tl : List Range) : s.qpc = .loaded rd → s.queue = h :: tl →
+      Step s .badRecv { s with queue := tl, qpc := .composing h.2 [h] (some rd) }
+  | badMore (s : State) (a : Nat) (rs : List Range) (k : Option Nat) (h : Range) (tl : List Range) :
+      s.qpc = .composing a rs k → s.queue = h :: tl →
+      Step s .badMore { s with queue := tl, qpc := .composing (if a < h.2 then h.2 else a) (rs ++ [h]) k }
+  | badDone (s : State) (a : Nat) (rs : List Range) (k : Option Nat) : s.qpc = .composing a rs k → s.queue = [] →
+      Step s .badDone { s with qpc := .sending (if a < s.lastAcked then s.lastAcked else a) rs true k }
+  | tickNoBad (s : State) (rd : Nat) : s.qpc = .loaded rd → s.queue = [] →
+      Step s .tickNoBad { s with qpc := .acking rd }
+  | tickAckSend (s : State) (rd : Nat) : s.qpc = .acking rd → rd > s.lastAcked →
+      Step s .tickAck { s with lastAcked := rd, qpc := .sending rd [] false none }
+  | tickAckNoop (s : State) (rd : Nat) : s.qpc = .acking rd → ¬ rd > s.lastAcked →
+      Step s .tickAck { s with qpc := .idle }
+  | sendOk (s : State) (a : Nat) (rs : List Range) (bad : Bool) (k : Option Nat) :
+      s.qpc = .sending a rs bad k → s.broken = false →
       Step s .sendOk { s with resps := ⟨a, rs, true⟩ :: s.resps,
-                              lastAcked := if bad then a else s.lastAcked, qpc := .idle }
-  | sendFail (s : State) (a : Nat) (rs : List Range) (bad : Bool) : s.qpc = .sending a rs bad →
-      Step s .sendFail { s with resps := ⟨a, rs, false⟩ :: s.resps, lastError := true, broken := true, qpc := .idle }
+                              lastAcked := if bad then a else s.lastAcked, qpc := QPc.afterSend bad k }
+  | sendFail (s : State) (a : Nat) (rs : List Range) (bad : Bool) (k : Option Nat) : s.qpc = .sending a rs bad k →
+      Step s .sendFail { s with resps := ⟨a, rs, false⟩ :: s.resps, lastError := true, broken := true,
+                                qpc := QPc.afterSend bad k }
   | stop (s : State) : s.qpc = .idle → s.stopReq = true → Step s .stop { s with qpc := .stopped }
 
 theorem step_sound {s s' : State} {e : Event} (h : step s e = some s') : Step s e s' := by
@@ -89,36 +97,47 @@ theorem step_sound {s s' : State} {e : Event} (h : step s e = some s') : Step s 
   | tick =>
     simp only [step] at h
     split at h
-    · split at h
-      · cases h; exact Step.tickSend s ‹_› ‹_›
-      · cases h; exact Step.tickNoop s ‹_› ‹_›
+    · cases h; exact Step.tick s ‹_›
     · cases h
   | badRecv =>
     simp only [step] at h
     split at h
-    · cases h; exact Step.badRecv s _ _ ‹_› ‹_›
+    · cases h; exact Step.badRecvIdle s _ _ ‹_› ‹_›
+    · cases h; exact Step.badRecvTick s _ _ _ ‹_› ‹_›
     · cases h
   | badMore =>
     simp only [step] at h
     split at h
-    · cases h; exact Step.badMore s _ _ _ _ ‹_› ‹_›
+    · cases h; exact Step.badMore s _ _ _ _ _ ‹_› ‹_›
     · cases h
   | badDone =>
     simp only [step] at h
     split at h
-    · cases h; exact Step.badDone s _ _ ‹_› ‹_›
+    · cases h; exact Step.badDone s _ _ _ ‹_› ‹_›
+    · cases h
+  | tickNoBad =>
+    simp only [step] at h
+    split at h
+    · cases h; exact Step.tickNoBad s _ ‹_› ‹_›
+    · cases h
+  | tickAck =>
+    simp only [step] at h
+    split at h
+    · split at h
+      · cases h; exact Step.tickAckSend s _ ‹_› ‹_›
+      · cases h; exact Step.tickAckNoop s _ ‹_› ‹_›
     · cases h
   | sendOk =>
     simp only [step] at h
     split at h
     · split at h
       · cases h
-      · cases h; exact Step.sendOk s _ _ _ ‹_› (by simp_all)
+      · cases h; exact Step.sendOk s _ _ _ _ ‹_› (by simp_all)
     · cases h
   | sendFail =>
     simp only [step] at h
     split at h
-    · cases h; exact Step.sendFail s _ _ _ ‹_›
+    · cases h; exact Step.sendFail s _ _ _ _ ‹_›
     · cases h
   | stop =>
     simp only [step] at h
@@ -128,7 +147,33 @@ theorem step_sound {s s' : State} {e : Event} (h : step s e = some s') : Step s 
       · cases h
     · cases h
 
+/-! ### where Run continues after a send -/
 
+@[simp] theorem infl_afterSend (bad : Bool) (k : Option Nat) : (QPc.afterSend bad k).infl = [] := by
+  cases bad <;> cases k <;> rfl
+
+@[simp] theorem rd_afterSend (bad : Bool) (k : Option Nat) :
+    (QPc.afterSend bad k).rd = if bad then k else none := by
+  cases bad <;> cases k <;> rfl
+
+theorem afterSend_cases (bad : Bool) (k : Option Nat) :
+    QPc.afterSend bad k = .idle ∨ ∃ rd, bad = true ∧ k = some rd ∧ QPc.afterSend bad k = .acking rd := by
+  cases bad <;> cases k <;> simp [QPc.afterSend]
+
+@[simp] theorem afterSend_ne_composing (bad : Bool) (k : Option Nat) (a : Nat) (rs : List Range) (k' : Option Nat) :
+    QPc.afterSend bad k ≠ .composing a rs k' := by
+  cases bad <;> cases k <;> simp [QPc.afterSend]
+
+@[simp] theorem afterSend_ne_sending (bad : Bool) (k : Option Nat) (a : Nat) (rs : List Range) (b' : Bool)
+    (k' : Option Nat) : QPc.afterSend bad k ≠ .sending a rs b' k' := by
+  cases bad <;> cases k <;> simp [QPc.afterSend]
+
+@[simp] theorem afterSend_ne_stopped (bad : Bool) (k : Option Nat) : QPc.afterSend bad k ≠ .stopped := by
+  cases bad <;> cases k <;> simp [QPc.afterSend]
+
+@[simp] theorem afterSend_eq_acking (bad : Bool) (k : Option Nat) (rd : Nat) :
+    QPc.afterSend bad k = .acking rd ↔ bad = true ∧ k = some rd := by
+  cases bad <;> cases k <;> simp [QPc.afterSend]
 
 /-! ### structural invariants (hold in every reachable state) -/
 
@@ -174,16 +219,26 @@ structure Inv (s : State) : Prop where
   lastAcked_le : s.lastAcked ≤ low s.batches
   queue_le : ∀ x ∈ s.queue, x.2 ≤ low s.batches
   infl_le : ∀ x ∈ inflight s, x.2 ≤ low s.batches
-  comp : ∀ a rs, (s.qpc = .composing a rs ∨ s.qpc = .sending a rs true) → ∃ x ∈ rs, x.2 = a
-  tickSending : ∀ a rs, s.qpc = .sending a rs false → rs = [] ∧ a = s.lastAcked
+  /-- composeBadDataResponse: AckRecordId is the ToID of one of the collected ranges -/
+  comp : ∀ a rs k, s.qpc = .composing a rs k → ∃ x ∈ rs, x.2 = a
+  /-- ... and sendBadDataResponse may have raised it to lastAckedID -/
+  compS : ∀ a rs k, s.qpc = .sending a rs true k → (∃ x ∈ rs, x.2 = a) ∨ a = s.lastAcked
+  tickSending : ∀ a rs k, s.qpc = .sending a rs false k → rs = [] ∧ a = s.lastAcked
   rpcBad_ge : ∀ x ∈ rpcBad s, s.nextAck < x.1
+  /-- the id loaded by the tick branch is not above the id stored last -/
+  rd_le : ∀ rd, s.qpc.rd = some rd → rd ≤ s.nextAck
+  /-- once the tick branch has found the channel empty (`default:` in its own select or in
+      composeBadDataResponse), whatever enters the channel later lies above the loaded id -/
+  queue_gt : ∀ rd, ((∃ a rs, s.qpc = .sending a rs true (some rd)) ∨ s.qpc = .acking rd) →
+    ∀ x ∈ s.queue, rd < x.1
   allOk : s.broken = false → ∀ r ∈ s.resps, r.ok = true
   qlen : s.queue.length ≤ badDataCap
   stopR : s.stopReq = true ↔ s.rpc = .exited
   stopQ : s.qpc = .stopped → s.stopReq = true
 
 theorem inv_init : Inv init := by
-  constructor <;> simp [init, Chain, HeadOK, AllDone, reported, pendingBad, inflight, rpcBad, permRanges, low, badDataCap]
+  constructor <;> simp [init, Chain, HeadOK, AllDone, reported, pendingBad, inflight, QPc.infl, QPc.rd, rpcBad,
+    permRanges, low, badDataCap]
 
 theorem head_step {s s' : State} {e : Event} (hh : HeadOK s) (h : Step s e s') : HeadOK s' := by
   cases h <;> simp_all [HeadOK, AllDone, Done]
@@ -203,7 +258,7 @@ theorem ledger_step {s s' : State} {e : Event} (hi : Inv s) (h : Step s e s') :
     simp [reported, pendingBad, inflight, rpcBad, permRanges_cons, HeadOK, hr, hb] at hl hh ⊢
     simp [hh.2] at hl
     rw [← hl]; simp [List.append_assoc]
-  all_goals simp_all [reported, pendingBad, inflight, rpcBad, permRanges_cons, HeadOK]
+  all_goals simp_all [reported, pendingBad, inflight, QPc.infl, rpcBad, permRanges_cons, HeadOK]
 
 theorem low_step {s s' : State} {e : Event} (hi : Inv s) (h : Step s e s') :
     low s.batches ≤ low s'.batches := by
@@ -246,15 +301,24 @@ theorem nextAck_step {s s' : State} {e : Event} (hi : Inv s) (h : Step s e s') :
   case schedAck t hr => simp [low_needAck hi hr]
   all_goals (first | exact Nat.le_trans h1 hlow | (simp only [] at hlow ⊢; omega))
 
-theorem sendAck_le {s : State} {a : Nat} {rs : List Range} {bad : Bool} (hi : Inv s)
-    (hq : s.qpc = .sending a rs bad) : a ≤ low s.batches := by
+/-- the id stored by ScheduleAck never decreases -/
+theorem nextAck_mono {s s' : State} {e : Event} (hi : Inv s) (h : Step s e s') : s.nextAck ≤ s'.nextAck := by
+  have h1 := hi.nextAck_le
+  cases h
+  case schedAck t hr => have := low_needAck hi hr; simp; omega
+  all_goals exact Nat.le_refl _
+
+theorem sendAck_le {s : State} {a : Nat} {rs : List Range} {bad : Bool} {k : Option Nat} (hi : Inv s)
+    (hq : s.qpc = .sending a rs bad k) : a ≤ low s.batches := by
   cases bad
-  · have := (hi.tickSending a rs hq).2
+  · have := (hi.tickSending a rs k hq).2
     have := hi.lastAcked_le
     omega
-  · obtain ⟨x, hx, hxa⟩ := hi.comp a rs (Or.inr hq)
-    have := hi.infl_le x (by simp [inflight, hq, hx])
-    omega
+  · rcases hi.compS a rs k hq with ⟨x, hx, hxa⟩ | hla
+    · have := hi.infl_le x (by simp [inflight, QPc.infl, hq, hx])
+      omega
+    · have := hi.lastAcked_le
+      omega
 
 theorem lastAcked_step {s s' : State} {e : Event} (hi : Inv s) (h : Step s e s') :
     s'.lastAcked ≤ low s'.batches := by
@@ -262,9 +326,12 @@ theorem lastAcked_step {s s' : State} {e : Event} (hi : Inv s) (h : Step s e s')
   have h1 := hi.lastAcked_le
   have h2 := hi.nextAck_le
   cases h
-  case sendOk a rs bad hq hb =>
+  case sendOk a rs bad k hq hb =>
     have := sendAck_le hi hq
     simp; split <;> omega
+  case tickAckSend rd hq hgt =>
+    have := hi.rd_le rd (by simp [hq, QPc.rd])
+    simp at hlow ⊢; omega
   all_goals (first | exact Nat.le_trans h1 hlow | (simp only [] at hlow ⊢; omega))
 
 theorem queue_step {s s' : State} {e : Event} (hi : Inv s) (h : Step s e s') :
@@ -278,9 +345,11 @@ theorem queue_step {s s' : State} {e : Event} (hi : Inv s) (h : Step s e s') :
     rcases hx with hx | hx
     · exact h1 x hx
     · subst hx; simp [(low_needBad hi hr).1]
-  case badRecv hd tl hq hqu =>
+  case badRecvIdle hd tl hq hqu =>
     intro x hx; simp at hx ⊢; exact h1 x (by simp [hqu, hx])
-  case badMore a rs hd tl hq hqu =>
+  case badRecvTick rd hd tl hq hqu =>
+    intro x hx; simp at hx ⊢; exact h1 x (by simp [hqu, hx])
+  case badMore a rs k hd tl hq hqu =>
     intro x hx; simp at hx ⊢; exact h1 x (by simp [hqu, hx])
   all_goals (intro x hx; exact Nat.le_trans (h1 x hx) hlow)
 
@@ -290,52 +359,86 @@ theorem infl_step {s s' : State} {e : Event} (hi : Inv s) (h : Step s e s') :
   have h1 := hi.infl_le
   have h2 := hi.queue_le
   cases h
-  case badRecv hd tl hq hqu =>
-    intro x hx; simp [inflight] at hx ⊢; subst hx; exact h2 _ (by simp [hqu])
-  case badMore a rs hd tl hq hqu =>
-    intro x hx; simp [inflight] at hx ⊢
+  case badRecvIdle hd tl hq hqu =>
+    intro x hx; simp [inflight, QPc.infl] at hx ⊢; subst hx; exact h2 _ (by simp [hqu])
+  case badRecvTick rd hd tl hq hqu =>
+    intro x hx; simp [inflight, QPc.infl] at hx ⊢; subst hx; exact h2 _ (by simp [hqu])
+  case badMore a rs k hd tl hq hqu =>
+    intro x hx; simp [inflight, QPc.infl] at hx ⊢
     rcases hx with hx | hx
-    · exact h1 x (by simp [inflight, hq, hx])
+    · exact h1 x (by simp [inflight, QPc.infl, hq, hx])
     · subst hx; exact h2 _ (by simp [hqu])
-  case badDone a rs hq hqu =>
-    intro x hx; simp [inflight] at hx ⊢; exact h1 x (by simp [inflight, hq, hx])
-  case tickSend hq hn => intro x hx; simp [inflight] at hx
-  case sendOk a rs bad hq hb => intro x hx; simp [inflight] at hx
-  case sendFail a rs bad hq => intro x hx; simp [inflight] at hx
-  case stop hq hs => intro x hx; simp [inflight] at hx
+  case badDone a rs k hq hqu =>
+    intro x hx; simp [inflight, QPc.infl] at hx ⊢; exact h1 x (by simp [inflight, QPc.infl, hq, hx])
+  case tick hq => intro x hx; simp [inflight, QPc.infl] at hx
+  case tickNoBad rd hq hqu => intro x hx; simp [inflight, QPc.infl] at hx
+  case tickAckSend rd hq hgt => intro x hx; simp [inflight, QPc.infl] at hx
+  case tickAckNoop rd hq hgt => intro x hx; simp [inflight, QPc.infl] at hx
+  case sendOk a rs bad k hq hb => intro x hx; simp [inflight] at hx
+  case sendFail a rs bad k hq => intro x hx; simp [inflight] at hx
+  case stop hq hs => intro x hx; simp [inflight, QPc.infl] at hx
   all_goals (intro x hx; exact Nat.le_trans (h1 x hx) hlow)
 
 theorem comp_step {s s' : State} {e : Event} (hi : Inv s) (h : Step s e s') :
-    ∀ a rs, (s'.qpc = .composing a rs ∨ s'.qpc = .sending a rs true) → ∃ x ∈ rs, x.2 = a := by
+    ∀ a rs k, s'.qpc = .composing a rs k → ∃ x ∈ rs, x.2 = a := by
   have h1 := hi.comp
   cases h
-  case badRecv hd tl hq hqu =>
-    intro a rs hx; simp at hx; obtain ⟨rfl, rfl⟩ := hx; exact ⟨hd, by simp, rfl⟩
-  case badMore a0 rs0 hd tl hq hqu =>
-    intro a rs hx; simp at hx; obtain ⟨rfl, rfl⟩ := hx
-    obtain ⟨x, hx, hxa⟩ := h1 a0 rs0 (Or.inl hq)
+  case badRecvIdle hd tl hq hqu =>
+    intro a rs k hx; simp at hx; obtain ⟨rfl, rfl, _⟩ := hx; exact ⟨hd, by simp, rfl⟩
+  case badRecvTick rd hd tl hq hqu =>
+    intro a rs k hx; simp at hx; obtain ⟨rfl, rfl, _⟩ := hx; exact ⟨hd, by simp, rfl⟩
+  case badMore a0 rs0 k0 hd tl hq hqu =>
+    intro a rs k hx; simp at hx; obtain ⟨rfl, rfl, _⟩ := hx
+    obtain ⟨x, hx, hxa⟩ := h1 a0 rs0 k0 hq
     by_cases hlt : a0 < hd.2
     · exact ⟨hd, by simp, by simp [hlt]⟩
     · exact ⟨x, by simp [hx], by simp [hlt, hxa]⟩
-  case badDone a0 rs0 hq hqu =>
-    intro a rs hx; simp at hx; obtain ⟨rfl, rfl⟩ := hx; exact h1 _ _ (Or.inl hq)
-  case tickSend hq hn => intro a rs hx; simp at hx
-  case sendOk a0 rs0 bad hq hb => intro a rs hx; simp at hx
-  case sendFail a0 rs0 bad hq => intro a rs hx; simp at hx
-  case stop hq hs => intro a rs hx; simp at hx
+  case badDone a0 rs0 k0 hq hqu => intro a rs k hx; simp at hx
+  case tick hq => intro a rs k hx; simp at hx
+  case tickNoBad rd hq hqu => intro a rs k hx; simp at hx
+  case tickAckSend rd hq hgt => intro a rs k hx; simp at hx
+  case tickAckNoop rd hq hgt => intro a rs k hx; simp at hx
+  case sendOk a0 rs0 bad k0 hq hb => intro a rs k hx; simp at hx
+  case sendFail a0 rs0 bad k0 hq => intro a rs k hx; simp at hx
+  case stop hq hs => intro a rs k hx; simp at hx
+  all_goals exact h1
+
+theorem compS_step {s s' : State} {e : Event} (hi : Inv s) (h : Step s e s') :
+    ∀ a rs k, s'.qpc = .sending a rs true k → (∃ x ∈ rs, x.2 = a) ∨ a = s'.lastAcked := by
+  have h1 := hi.compS
+  cases h
+  case badRecvIdle hd tl hq hqu => intro a rs k hx; simp at hx
+  case badRecvTick rd hd tl hq hqu => intro a rs k hx; simp at hx
+  case badMore a0 rs0 k0 hd tl hq hqu => intro a rs k hx; simp at hx
+  case badDone a0 rs0 k0 hq hqu =>
+    intro a rs k hx; simp at hx; obtain ⟨rfl, rfl, _⟩ := hx
+    by_cases hlt : a0 < s.lastAcked
+    · right; simp [hlt]
+    · left; simpa [hlt] using hi.comp a0 rs0 k0 hq
+  case tick hq => intro a rs k hx; simp at hx
+  case tickNoBad rd hq hqu => intro a rs k hx; simp at hx
+  case tickAckSend rd hq hgt => intro a rs k hx; simp at hx
+  case tickAckNoop rd hq hgt => intro a rs k hx; simp at hx
+  case sendOk a0 rs0 bad k0 hq hb => intro a rs k hx; simp at hx
+  case sendFail a0 rs0 bad k0 hq => intro a rs k hx; simp at hx
+  case stop hq hs => intro a rs k hx; simp at hx
   all_goals exact h1
 
 theorem tickSending_step {s s' : State} {e : Event} (hi : Inv s) (h : Step s e s') :
-    ∀ a rs, s'.qpc = .sending a rs false → rs = [] ∧ a = s'.lastAcked := by
+    ∀ a rs k, s'.qpc = .sending a rs false k → rs = [] ∧ a = s'.lastAcked := by
   have h1 := hi.tickSending
   cases h
-  case badRecv hd tl hq hqu => intro a rs hx; simp at hx
-  case badMore a0 rs0 hd tl hq hqu => intro a rs hx; simp at hx
-  case badDone a0 rs0 hq hqu => intro a rs hx; simp at hx
-  case tickSend hq hn => intro a rs hx; simp at hx; simp [hx]
-  case sendOk a0 rs0 bad hq hb => intro a rs hx; simp at hx
-  case sendFail a0 rs0 bad hq => intro a rs hx; simp at hx
-  case stop hq hs => intro a rs hx; simp at hx
+  case badRecvIdle hd tl hq hqu => intro a rs k hx; simp at hx
+  case badRecvTick rd hd tl hq hqu => intro a rs k hx; simp at hx
+  case badMore a0 rs0 k0 hd tl hq hqu => intro a rs k hx; simp at hx
+  case badDone a0 rs0 k0 hq hqu => intro a rs k hx; simp at hx
+  case tick hq => intro a rs k hx; simp at hx
+  case tickNoBad rd hq hqu => intro a rs k hx; simp at hx
+  case tickAckSend rd hq hgt => intro a rs k hx; simp at hx; simp [hx]
+  case tickAckNoop rd hq hgt => intro a rs k hx; simp at hx
+  case sendOk a0 rs0 bad k0 hq hb => intro a rs k hx; simp at hx
+  case sendFail a0 rs0 bad k0 hq => intro a rs k hx; simp at hx
+  case stop hq hs => intro a rs k hx; simp at hx
   all_goals exact h1
 
 theorem rpcBad_step {s s' : State} {e : Event} (hi : Inv s) (h : Step s e s') :
@@ -348,6 +451,65 @@ theorem rpcBad_step {s s' : State} {e : Event} (hi : Inv s) (h : Step s e s') :
     have := (low_decoded hi hr hb).1
     simp; omega
   all_goals first | exact h1 | (intro x hx; simp_all [rpcBad])
+
+theorem rd_step {s s' : State} {e : Event} (hi : Inv s) (h : Step s e s') :
+    ∀ rd, s'.qpc.rd = some rd → rd ≤ s'.nextAck := by
+  have h1 := hi.rd_le
+  have hm := nextAck_mono hi h
+  cases h
+  case tick hq => intro rd hx; simp [QPc.rd] at hx; subst hx; exact Nat.le_refl _
+  case badRecvIdle hd tl hq hqu => intro rd hx; simp [QPc.rd] at hx
+  case badRecvTick rd0 hd tl hq hqu =>
+    intro rd hx; simp [QPc.rd] at hx; subst hx; exact h1 _ (by simp [hq, QPc.rd])
+  case badMore a0 rs0 k0 hd tl hq hqu =>
+    intro rd hx; simp [QPc.rd] at hx; exact h1 _ (by simp [hq, QPc.rd, hx])
+  case badDone a0 rs0 k0 hq hqu =>
+    intro rd hx; simp [QPc.rd] at hx; exact h1 _ (by simp [hq, QPc.rd, hx])
+  case tickNoBad rd0 hq hqu =>
+    intro rd hx; simp [QPc.rd] at hx; subst hx; exact h1 _ (by simp [hq, QPc.rd])
+  case tickAckSend rd0 hq hgt => intro rd hx; simp [QPc.rd] at hx
+  case tickAckNoop rd0 hq hgt => intro rd hx; simp [QPc.rd] at hx
+  case sendOk a0 rs0 bad k0 hq hb =>
+    intro rd hx; simp at hx; obtain ⟨rfl, hk⟩ := hx; exact h1 _ (by simp [hq, QPc.rd, hk])
+  case sendFail a0 rs0 bad k0 hq =>
+    intro rd hx; simp at hx; obtain ⟨rfl, hk⟩ := hx; exact h1 _ (by simp [hq, QPc.rd, hk])
+  case stop hq hs => intro rd hx; simp [QPc.rd] at hx
+  all_goals (intro rd hx; exact Nat.le_trans (h1 rd hx) hm)
+
+theorem queue_gt_step {s s' : State} {e : Event} (hi : Inv s) (h : Step s e s') :
+    ∀ rd, ((∃ a rs, s'.qpc = .sending a rs true (some rd)) ∨ s'.qpc = .acking rd) →
+      ∀ x ∈ s'.queue, rd < x.1 := by
+  have h1 := hi.queue_gt
+  have h2 := hi.rpcBad_ge
+  have h3 := hi.rd_le
+  cases h
+  case schedBad f t hr hq =>
+    intro rd hx x hm
+    simp at hx hm
+    rcases hm with hm | hm
+    · exact h1 rd hx x hm
+    · subst hm
+      have := h2 (f, t) (by simp [rpcBad, hr])
+      have hrd : s.qpc.rd = some rd := by
+        rcases hx with ⟨a, rs, hx⟩ | hx <;> simp [hx, QPc.rd]
+      have := h3 rd hrd
+      simp at *; omega
+  case tick hq => intro rd hx; simp at hx
+  case badRecvIdle hd tl hq hqu => intro rd hx; simp at hx
+  case badRecvTick rd0 hd tl hq hqu => intro rd hx; simp at hx
+  case badMore a0 rs0 k0 hd tl hq hqu => intro rd hx; simp at hx
+  case badDone a0 rs0 k0 hq hqu => intro rd hx x hm; simp [hqu] at hm
+  case tickNoBad rd0 hq hqu => intro rd hx x hm; simp [hqu] at hm
+  case tickAckSend rd0 hq hgt => intro rd hx; simp at hx
+  case tickAckNoop rd0 hq hgt => intro rd hx; simp at hx
+  case sendOk a0 rs0 bad k0 hq hb =>
+    intro rd hx x hm; simp at hx hm; obtain ⟨rfl, rfl⟩ := hx
+    exact h1 rd (Or.inl ⟨a0, rs0, hq⟩) x hm
+  case sendFail a0 rs0 bad k0 hq =>
+    intro rd hx x hm; simp at hx hm; obtain ⟨rfl, rfl⟩ := hx
+    exact h1 rd (Or.inl ⟨a0, rs0, hq⟩) x hm
+  case stop hq hs => intro rd hx; simp at hx
+  all_goals exact h1
 
 theorem misc_step {s s' : State} {e : Event} (hi : Inv s) (h : Step s e s') :
     (s'.broken = false → ∀ r ∈ s'.resps, r.ok = true) ∧ s'.queue.length ≤ badDataCap ∧
@@ -367,8 +529,11 @@ theorem inv_step {s s' : State} {e : Event} (hi : Inv s) (h : Step s e s') : Inv
     queue_le := queue_step hi h
     infl_le := infl_step hi h
     comp := comp_step hi h
+    compS := compS_step hi h
     tickSending := tickSending_step hi h
     rpcBad_ge := rpcBad_step hi h
+    rd_le := rd_step hi h
+    queue_gt := queue_gt_step hi h
     allOk := (misc_step hi h).1
     qlen := (misc_step hi h).2.1
     stopR := (misc_step hi h).2.2.1
@@ -421,34 +586,50 @@ theorem pending_sorted {s : State} (hi : Inv s) :
   rw [List.pairwise_append] at hs
   exact ⟨hs.2.1, fun x hx => (hb x (List.mem_append.mpr (Or.inr hx))).2.1⟩
 
-/-! ### invariants of runs in which no tick fires while bad data waits in the channel -/
+/-! ### acknowledgement invariants (hold in every reachable state since fix 3888867)
 
-structure InvT (s : State) : Prop where
+  Before that fix these held only for runs in which no tick fired while bad data was waiting in the
+  channel (the former `TickClean` hypothesis). Now the tick branch loads the id, empties the channel
+  (`queue_gt`) and only then acknowledges, so they are invariants of the LTS. -/
+
+structure InvA (s : State) : Prop where
+  /-- everything still on its way to a bad-data response lies above the last acknowledged id -/
   pend_ge : ∀ x ∈ pendingBad s, s.lastAcked < x.1
   acks_le : ∀ r ∈ s.resps, r.ok = true → r.ack ≤ s.lastAcked
   sorted : (acks s).Pairwise (· ≤ ·)
 
-theorem invT_init : InvT init := by
-  constructor <;> simp [init, pendingBad, inflight, rpcBad, acks]
+theorem invA_init : InvA init := by
+  constructor <;> simp [init, pendingBad, inflight, QPc.infl, rpcBad, acks]
 
 /-- the acknowledgement about to be sent is not below `lastAckedID` -/
-theorem sendAck_ge {s : State} {a : Nat} {rs : List Range} {bad : Bool} (hi : Inv s) (ht : InvT s)
-    (hq : s.qpc = .sending a rs bad) : s.lastAcked ≤ a := by
+theorem sendAck_ge {s : State} {a : Nat} {rs : List Range} {bad : Bool} {k : Option Nat} (hi : Inv s) (ht : InvA s)
+    (hq : s.qpc = .sending a rs bad k) : s.lastAcked ≤ a := by
   cases bad
-  · have := (hi.tickSending a rs hq).2; omega
-  · obtain ⟨x, hx, hxa⟩ := hi.comp a rs (Or.inr hq)
-    have hm : x ∈ pendingBad s := by simp [pendingBad, inflight, hq, hx]
-    have h1 := ht.pend_ge x hm
-    have h2 := (pending_sorted hi).2 x hm
-    omega
+  · have := (hi.tickSending a rs k hq).2; omega
+  · rcases hi.compS a rs k hq with ⟨x, hx, hxa⟩ | hla
+    · have hm : x ∈ pendingBad s := by simp [pendingBad, inflight, QPc.infl, hq, hx]
+      have h1 := ht.pend_ge x hm
+      have h2 := (pending_sorted hi).2 x hm
+      omega
+    · omega
+
+/-- the clamp of sendBadDataResponse never fires in a reachable state: the id composed from the
+    ranges is already above `lastAckedID` -/
+theorem composed_gt {s : State} {a : Nat} {rs : List Range} {k : Option Nat} (hi : Inv s) (ht : InvA s)
+    (hq : s.qpc = .composing a rs k) : s.lastAcked < a := by
+  obtain ⟨x, hx, hxa⟩ := hi.comp a rs k hq
+  have hm : x ∈ pendingBad s := by simp [pendingBad, inflight, QPc.infl, hq, hx]
+  have h1 := ht.pend_ge x hm
+  have h2 := (pending_sorted hi).2 x hm
+  omega
 
 /-- apart from `consume perm`, no event adds a range to the pending bad data -/
 theorem pend_mem_step {s s' : State} {e : Event} (h : Step s e s') (x : Range) (hx : x ∈ pendingBad s') :
     x ∈ pendingBad s ∨ (∃ b bs, s.rpc = .decoded ∧ s.batches = b :: bs ∧ x = (b.from_ + 1, b.to)) := by
-  cases h <;> simp_all [pendingBad, inflight, rpcBad] <;> grind
+  cases h <;> simp_all [pendingBad, inflight, QPc.infl, rpcBad] <;> grind
 
-theorem pend_step {s s' : State} {e : Event} (hi : Inv s) (ht : InvT s)
-    (hc : e = .tick → s.queue = []) (h : Step s e s') : ∀ x ∈ pendingBad s', s'.lastAcked < x.1 := by
+theorem pend_step {s s' : State} {e : Event} (hi : Inv s) (ht : InvA s) (h : Step s e s') :
+    ∀ x ∈ pendingBad s', s'.lastAcked < x.1 := by
   have h1 := ht.pend_ge
   intro x hx
   have hmem := pend_mem_step h x hx
@@ -459,39 +640,45 @@ theorem pend_step {s s' : State} {e : Event} (hi : Inv s) (ht : InvT s)
     have := hi.lastAcked_le
     simp; omega
   cases h
-  case tickSend hq hn =>
-    have hqe := hc rfl
-    simp [pendingBad, inflight, hqe] at hx ⊢
-    exact hi.rpcBad_ge x hx
-  case sendOk a rs bad hq hb =>
+  case tickAckSend rd hq hgt =>
+    -- the channel was found empty after `rd` was loaded: what waits now lies above `rd`
+    simp [pendingBad, inflight, QPc.infl] at hx ⊢
+    rcases hx with hx | hx
+    · exact hi.queue_gt rd (Or.inr hq) x hx
+    · have := hi.rpcBad_ge x hx
+      have := hi.rd_le rd (by simp [hq, QPc.rd])
+      omega
+  case sendOk a rs bad k hq hb =>
     have hx' : x ∈ s.queue ++ rpcBad s := by simpa [pendingBad, inflight, rpcBad] using hx
     have hm : x ∈ pendingBad s := by
       simp only [pendingBad, List.append_assoc]; exact List.mem_append.mpr (Or.inr hx')
     cases bad
     · simpa using h1 x hm
-    · obtain ⟨y, hy, hya⟩ := hi.comp a rs (Or.inr hq)
-      have hs := (pending_sorted hi).1
-      simp only [pendingBad, inflight, hq, List.append_assoc] at hs
-      rw [List.pairwise_append] at hs
-      have := hs.2.2 y hy x hx'
-      simp; omega
+    · rcases hi.compS a rs k hq with ⟨y, hy, hya⟩ | hla
+      · have hs := (pending_sorted hi).1
+        simp only [pendingBad, inflight, QPc.infl, hq, List.append_assoc] at hs
+        rw [List.pairwise_append] at hs
+        have := hs.2.2 y hy x hx'
+        simp; omega
+      · have := h1 x hm
+        simp; omega
   all_goals (rcases hmem with hm | hm; exact h1 x hm; exact hnew hm)
 
-theorem acksle_step {s s' : State} {e : Event} (hi : Inv s) (ht : InvT s) (h : Step s e s') :
+theorem acksle_step {s s' : State} {e : Event} (hi : Inv s) (ht : InvA s) (h : Step s e s') :
     ∀ r ∈ s'.resps, r.ok = true → r.ack ≤ s'.lastAcked := by
   have h1 := ht.acks_le
   cases h
-  case tickSend hq hn => intro r hr hok; have := h1 r hr hok; simp; omega
-  case sendOk a rs bad hq hb =>
+  case tickAckSend rd hq hgt => intro r hr hok; have := h1 r hr hok; simp; omega
+  case sendOk a rs bad k hq hb =>
     have hge := sendAck_ge hi ht hq
-    have hts := hi.tickSending a rs
+    have hts := hi.tickSending a rs k
     intro r hr hok
     simp at hr
     rcases hr with rfl | hr
     · cases bad <;> simp_all
     · have := h1 r hr hok
       cases bad <;> simp <;> omega
-  case sendFail a rs bad hq =>
+  case sendFail a rs bad k hq =>
     intro r hr hok
     simp at hr
     rcases hr with rfl | hr
@@ -512,11 +699,11 @@ theorem mem_acks {s : State} {a : Nat} (h : a ∈ acks s) : ∃ r ∈ s.resps, r
   obtain ⟨r, ⟨hr, hok⟩, hra⟩ := h
   exact ⟨r, hr, hok, hra⟩
 
-theorem sorted_step {s s' : State} {e : Event} (hi : Inv s) (ht : InvT s) (h : Step s e s') :
+theorem sorted_step {s s' : State} {e : Event} (hi : Inv s) (ht : InvA s) (h : Step s e s') :
     (acks s').Pairwise (· ≤ ·) := by
   have h1 := ht.sorted
   cases h
-  case sendOk a rs bad hq hb =>
+  case sendOk a rs bad k hq hb =>
     have hge := sendAck_ge hi ht hq
     show ((((⟨a, rs, true⟩ : Resp) :: s.resps).reverse).filter (·.ok)).map (·.ack) |>.Pairwise (· ≤ ·)
     rw [acks_cons_ok, List.pairwise_append]
@@ -526,30 +713,25 @@ theorem sorted_step {s s' : State} {e : Event} (hi : Inv s) (ht : InvT s) (h : S
     obtain ⟨r, hr, hok, rfl⟩ := mem_acks hx
     have := ht.acks_le r hr hok
     omega
-  case sendFail a rs bad hq =>
+  case sendFail a rs bad k hq =>
     show ((((⟨a, rs, false⟩ : Resp) :: s.resps).reverse).filter (·.ok)).map (·.ack) |>.Pairwise (· ≤ ·)
     rw [acks_cons_fail]; exact h1
   all_goals exact h1
 
-theorem invT_step {s s' : State} {e : Event} (hi : Inv s) (ht : InvT s)
-    (hc : e = .tick → s.queue = []) (h : Step s e s') : InvT s' :=
-  { pend_ge := pend_step hi ht hc h
+theorem invA_step {s s' : State} {e : Event} (hi : Inv s) (ht : InvA s) (h : Step s e s') : InvA s' :=
+  { pend_ge := pend_step hi ht h
     acks_le := acksle_step hi ht h
     sorted := sorted_step hi ht h }
 
-theorem invT_run : ∀ (evs : List Event) (s s' : State), Inv s → InvT s → TickClean s evs →
-    run s evs = some s' → Inv s' ∧ InvT s'
-  | [], s, s', hi, ht, _, h => by simp [run] at h; subst h; exact ⟨hi, ht⟩
-  | e :: es, s, s', hi, ht, hc, h => by
+theorem invA_run : ∀ (evs : List Event) (s s' : State), Inv s → InvA s →
+    run s evs = some s' → Inv s' ∧ InvA s'
+  | [], s, s', hi, ht, h => by simp [run] at h; subst h; exact ⟨hi, ht⟩
+  | e :: es, s, s', hi, ht, h => by
     simp only [run] at h
-    simp only [TickClean] at hc
     split at h
     · rename_i s1 hs1
-      rw [hs1] at hc
-      exact invT_run es s1 s' (inv_step hi (step_sound hs1)) (invT_step hi ht hc.1 (step_sound hs1)) hc.2 h
+      exact invA_run es s1 s' (inv_step hi (step_sound hs1)) (invA_step hi ht (step_sound hs1)) h
     · cases h
-
-
 
 /-! ### the ledger counts every permanently rejected batch once -/
 
@@ -614,18 +796,18 @@ theorem done_of_lt_low {s : State} (hi : Inv s) {b : Batch} (hb : b ∈ s.batche
 
 
 
-/-! ### acknowledged ids are covered (tick-clean runs) -/
+/-! ### acknowledged ids are covered (every run) -/
 
 theorem reportedOk_cons_ok (s : State) (a : Nat) (rs : List Range) :
     ((((⟨a, rs, true⟩ : Resp) :: s.resps).reverse).filter (·.ok)).flatMap (·.ranges) = reportedOk s ++ rs := by
   simp [reportedOk, List.filter_append]
 
-/-- at the moment a response is sent successfully, its AckRecordId is covered (tick-clean runs) -/
-theorem covered_sendOk {s s' : State} (hi : Inv s) (ht : InvT s) (h : Step s .sendOk s') :
-    ∃ r rest, s'.resps = r :: rest ∧ r.ok = true ∧ Covered s' r.ack := by
+/-- at the moment a response is sent successfully, its AckRecordId is covered -/
+theorem covered_sendOk {s s' : State} (hi : Inv s) (ht : InvA s) (h : Step s .sendOk s') :
+    ∃ r rest, s'.resps = r :: rest ∧ rest = s.resps ∧ r.ok = true ∧ Covered s' r.ack := by
   cases h
-  case sendOk a rs bad hq hb =>
-    refine ⟨⟨a, rs, true⟩, s.resps, rfl, rfl, ?_⟩
+  case sendOk a rs bad k hq hb =>
+    refine ⟨⟨a, rs, true⟩, s.resps, rfl, rfl, rfl, ?_⟩
     have hle := sendAck_le hi hq
     have hlow := low_le_of_chain _ _ hi.chain
     refine ⟨by simp; omega, ?_⟩
@@ -639,27 +821,171 @@ theorem covered_sendOk {s s' : State} (hi : Inv s) (ht : InvT s) (h : Step s .se
       rw [reportedOk_cons_ok, reportedOk_eq (hi.allOk hb)]
       have hm := mem_permRanges hbm hperm
       rw [← hi.ledger] at hm
-      simp only [pendingBad, inflight, hq, List.append_assoc] at hm
+      simp only [pendingBad, inflight, QPc.infl, hq, List.append_assoc] at hm
       rcases List.mem_append.mp hm with hm | hm
       · exact List.mem_append.mpr (Or.inl hm)
       rcases List.mem_append.mp hm with hm | hm
       · exact List.mem_append.mpr (Or.inr hm)
-      -- still waiting in the channel / about to be scheduled: then it starts at or above `a`
+      -- still waiting in the channel / about to be scheduled: then it starts above `a`
       exfalso
       have hpm : (b.from_ + 1, b.to) ∈ pendingBad s := by
-        simp only [pendingBad, inflight, hq, List.append_assoc]
+        simp only [pendingBad, inflight, QPc.infl, hq, List.append_assoc]
         exact List.mem_append.mpr (Or.inr hm)
+      have h2 := ht.pend_ge _ hpm
+      simp at h2
       cases bad
-      · have h1 := (hi.tickSending a rs hq).2
-        have h2 := ht.pend_ge _ hpm
-        simp at h2; omega
-      · obtain ⟨y, hy, hya⟩ := hi.comp a rs (Or.inr hq)
-        have hs := (pending_sorted hi).1
-        simp only [pendingBad, inflight, hq, List.append_assoc] at hs
-        rw [List.pairwise_append] at hs
-        have := hs.2.2 y hy _ hm
-        simp at this; omega
+      · have h1 := (hi.tickSending a rs k hq).2
+        omega
+      · rcases hi.compS a rs k hq with ⟨y, hy, hya⟩ | hla
+        · have hs := (pending_sorted hi).1
+          simp only [pendingBad, inflight, QPc.infl, hq, List.append_assoc] at hs
+          rw [List.pairwise_append] at hs
+          have := hs.2.2 y hy _ hm
+          simp at this; omega
+        · omega
 
+/-- every record id up to the decoded count belongs to a batch -/
+theorem chain_cover : ∀ (bs : List Batch) (d : Nat), Chain bs d → ∀ i, 0 < i → i ≤ d →
+    ∃ b ∈ bs, b.from_ < i ∧ i ≤ b.to
+  | [], d, h, i, h0, hi => by simp [Chain] at h; omega
+  | b :: bs, d, h, i, h0, hi => by
+    simp only [Chain] at h
+    by_cases hb : b.from_ < i
+    · exact ⟨b, by simp, hb, by omega⟩
+    · obtain ⟨b', hb', h1, h2⟩ := chain_cover bs _ h.2.2 i h0 (by omega)
+      exact ⟨b', by simp [hb'], h1, h2⟩
+
+/-- `Covered`, stated per record id -/
+theorem coveredIds_of_covered {s : State} {a : Nat} (hc : Chain s.batches s.decoded) (h : Covered s a) :
+    CoveredIds s a := by
+  intro i h0 hia
+  obtain ⟨b, hb, h1, h2⟩ := chain_cover _ _ hc i h0 (by have := h.1; omega)
+  exact ⟨b, hb, ⟨h1, h2⟩, h.2 b hb (by omega)⟩
+
+/-! ### the acknowledgement clause over the whole response history -/
+
+/-- newest-first form of `AckHistory`, over batches: each successfully sent response covers every
+    batch that starts below its AckRecordId with the ranges sent up to and including itself -/
+def HistL (bs : List Batch) : List Resp → Prop
+  | [] => True
+  | r :: older =>
+    (r.ok = true → ∀ b ∈ bs, b.from_ < r.ack →
+      b.out = .accept ∨ (b.out = .perm ∧ (b.from_ + 1, b.to) ∈ okRanges (r :: older).reverse)) ∧
+    HistL bs older
+
+theorem histL_drop : ∀ (a b : List Resp) (bs : List Batch), HistL bs (a ++ b) → HistL bs b
+  | [], b, bs, h => h
+  | x :: a, b, bs, h => by
+    simp only [List.cons_append, HistL] at h
+    exact histL_drop a b bs h.2
+
+/-- the batches may change where no acknowledged id reaches: above `bound` -/
+theorem histL_mono {bs bs' : List Batch} {bound : Nat} : ∀ (l : List Resp), HistL bs l →
+    (∀ r ∈ l, r.ok = true → r.ack ≤ bound) →
+    (∀ b ∈ bs', b.from_ < bound → ∃ b0 ∈ bs, b0.from_ = b.from_ ∧ b0.to = b.to ∧ b0.out = b.out) →
+    HistL bs' l
+  | [], _, _, _ => trivial
+  | r :: older, h, hb, hbs => by
+    simp only [HistL] at h ⊢
+    refine ⟨?_, histL_mono older h.2 (fun r' hr' => hb r' (by simp [hr'])) hbs⟩
+    intro hok b hbm hlt
+    have hra := hb r (by simp) hok
+    obtain ⟨b0, hb0, hf, ht, ho⟩ := hbs b hbm (by omega)
+    have := h.1 hok b0 hb0 (by omega)
+    rw [hf, ht, ho] at this
+    exact this
+
+theorem histL_same {bs : List Batch} (l : List Resp) (h : HistL bs l) : HistL bs l := h
+
+structure InvH (s : State) : Prop where
+  hist : HistL s.batches s.resps
+
+theorem invH_init : InvH init := ⟨by simp [init, HistL]⟩
+
+theorem invH_step {s s' : State} {e : Event} (hi : Inv s) (ht : InvA s) (hh : InvH s) (h : Step s e s') :
+    InvH s' := by
+  have h0 := hh.hist
+  -- acknowledged ids do not exceed `low`, below which the batches never change again
+  have hbound : ∀ r ∈ s.resps, r.ok = true → r.ack ≤ low s.batches := fun r hr hok =>
+    Nat.le_trans (ht.acks_le r hr hok) hi.lastAcked_le
+  have hcov := fun (hs : Step s .sendOk s') => covered_sendOk hi ht hs
+  cases h
+  case decode n hr hn =>
+    refine ⟨histL_mono _ h0 hbound ?_⟩
+    intro b hb hlt
+    simp at hb
+    rcases hb with rfl | hb
+    · have := low_le_of_chain _ _ hi.chain
+      simp at hlt; omega
+    · exact ⟨b, hb, rfl, rfl, rfl⟩
+  case consumeAccept b0 bs hr hb =>
+    refine ⟨histL_mono _ h0 hbound ?_⟩
+    intro b hbm hlt
+    simp at hbm
+    rcases hbm with rfl | hbm
+    · have := (low_decoded hi hr hb).1
+      simp at hlt; omega
+    · exact ⟨b, by simp [hb, hbm], rfl, rfl, rfl⟩
+  case consumePerm b0 bs hr hb =>
+    refine ⟨histL_mono _ h0 hbound ?_⟩
+    intro b hbm hlt
+    simp at hbm
+    rcases hbm with rfl | hbm
+    · have := (low_decoded hi hr hb).1
+      simp at hlt; omega
+    · exact ⟨b, by simp [hb, hbm], rfl, rfl, rfl⟩
+  case consumeTrans b0 bs hr hb =>
+    refine ⟨histL_mono _ h0 hbound ?_⟩
+    intro b hbm hlt
+    simp at hbm
+    rcases hbm with rfl | hbm
+    · have := (low_decoded hi hr hb).1
+      simp at hlt; omega
+    · exact ⟨b, by simp [hb, hbm], rfl, rfl, rfl⟩
+  case sendOk a rs bad k hq hb =>
+    obtain ⟨r, rest, hr, hrest, hok, hc⟩ := hcov (Step.sendOk s a rs bad k hq hb)
+    simp only at hr
+    obtain ⟨rfl, rfl⟩ := List.cons.inj hr
+    refine ⟨?_⟩
+    show HistL s.batches (⟨a, rs, true⟩ :: s.resps)
+    simp only [HistL]
+    refine ⟨fun _ b hbm hlt => ?_, h0⟩
+    have := hc.2 b hbm hlt
+    simpa [reportedOk, okRanges] using this
+  case sendFail a rs bad k hq =>
+    refine ⟨?_⟩
+    show HistL s.batches (⟨a, rs, false⟩ :: s.resps)
+    simp only [HistL]
+    exact ⟨fun hok => by simp at hok, h0⟩
+  all_goals exact ⟨h0⟩
+
+theorem invH_run : ∀ (evs : List Event) (s s' : State), Inv s → InvA s → InvH s →
+    run s evs = some s' → Inv s' ∧ InvA s' ∧ InvH s'
+  | [], s, s', hi, ht, hh, h => by simp [run] at h; subst h; exact ⟨hi, ht, hh⟩
+  | e :: es, s, s', hi, ht, hh, h => by
+    simp only [run] at h
+    split at h
+    · rename_i s1 hs1
+      have hs := step_sound hs1
+      exact invH_run es s1 s' (inv_step hi hs) (invA_step hi ht hs) (invH_step hi ht hh hs) h
+    · cases h
+
+/-- from the newest-first batch form to `AckHistory` -/
+theorem ackHistory_of_inv {s : State} (hi : Inv s) (ht : InvA s) (hh : InvH s) : AckHistory s := by
+  intro pre r post hsplit hok i h0 hia
+  -- s.resps = post.reverse ++ r :: pre.reverse
+  have hl : s.resps = post.reverse ++ r :: pre.reverse := by
+    have := congrArg List.reverse hsplit
+    simpa using this
+  have h1 : HistL s.batches (r :: pre.reverse) := histL_drop post.reverse _ _ (hl ▸ hh.hist)
+  simp only [HistL] at h1
+  have hr : r ∈ s.resps := by rw [hl]; simp
+  have hra : r.ack ≤ s.decoded :=
+    Nat.le_trans (ht.acks_le r hr hok) (Nat.le_trans hi.lastAcked_le (low_le_of_chain _ _ hi.chain))
+  obtain ⟨b, hb, hf, hto⟩ := chain_cover _ _ hi.chain i h0 (by omega)
+  refine ⟨b, hb, ⟨hf, hto⟩, ?_⟩
+  have := h1.1 hok b hb (by omega)
+  simpa [Batch.exactRange] using this
 
 /-! ### the loop continues after a permanent error -/
 
@@ -683,8 +1009,47 @@ theorem sched_check {s : State} {f t : Nat} (hr : s.rpc = .needBad f t) (hl : s.
   · exact ⟨{ s with queue := s.queue ++ [(f, t)], rpc := .exited, stopReq := true },
       by simp [run, step, hr, hl, he], Or.inr ⟨rfl, he⟩⟩
 
+/-- with a full channel, a Responder that is at its select (outer or inner) or composing takes one
+    range out with its next event -/
+theorem room_after_one {s : State} {f t : Nat} {hd : Range} {tl : List Range} (hr : s.rpc = .needBad f t)
+    (hqu : s.queue = hd :: tl) (htl : tl.length < badDataCap)
+    (hq : s.qpc = .idle ∨ (∃ rd, s.qpc = .loaded rd) ∨ ∃ a rs k, s.qpc = .composing a rs k) :
+    ∃ e s1, step s e = some s1 ∧ s1.rpc = .needBad f t ∧ s1.queue.length < badDataCap := by
+  rcases hq with hq | ⟨rd, hq⟩ | ⟨a, rs, k, hq⟩
+  · exact ⟨.badRecv, { s with queue := tl, qpc := .composing hd.2 [hd] none }, by simp [step, hq, hqu], hr, htl⟩
+  · exact ⟨.badRecv, { s with queue := tl, qpc := .composing hd.2 [hd] (some rd) }, by simp [step, hq, hqu], hr, htl⟩
+  · exact ⟨.badMore, { s with queue := tl, qpc := .composing (if a < hd.2 then hd.2 else a) (rs ++ [hd]) k },
+      by simp [step, hq, hqu], hr, htl⟩
+
+/-- the Responder reaches its select (or the inner one) within three events from any send / ack step -/
+theorem to_select {s : State} (hq : (∃ a rs bad k, s.qpc = .sending a rs bad k) ∨ ∃ rd, s.qpc = .acking rd) :
+    ∃ pre s1, pre.length ≤ 3 ∧ run s pre = some s1 ∧ s1.rpc = s.rpc ∧ s1.queue = s.queue ∧ s1.qpc = .idle := by
+  -- an acknowledgement step: either nothing to send, or a send that (here) fails
+  have hack : ∀ (s0 : State) (rd : Nat), s0.qpc = .acking rd →
+      ∃ pre s1, pre.length ≤ 2 ∧ run s0 pre = some s1 ∧ s1.rpc = s0.rpc ∧ s1.queue = s0.queue ∧ s1.qpc = .idle := by
+    intro s0 rd h0
+    by_cases hgt : rd > s0.lastAcked
+    · exact ⟨[.tickAck, .sendFail],
+        { s0 with lastAcked := rd, resps := ⟨rd, [], false⟩ :: s0.resps, lastError := true, broken := true,
+                  qpc := .idle },
+        by simp, by simp [run, step, h0, hgt, QPc.afterSend], rfl, rfl, rfl⟩
+    · exact ⟨[.tickAck], { s0 with qpc := .idle }, by simp, by simp [run, step, h0, hgt], rfl, rfl, rfl⟩
+  rcases hq with ⟨a, rs, bad, k, hq⟩ | ⟨rd, hq⟩
+  · rcases afterSend_cases bad k with hidle | ⟨rd, _, _, hack'⟩
+    · exact ⟨[.sendFail],
+        { s with resps := ⟨a, rs, false⟩ :: s.resps, lastError := true, broken := true, qpc := QPc.afterSend bad k },
+        by simp, by simp [run, step, hq], rfl, rfl, hidle⟩
+    · let s0 : State := { s with resps := ⟨a, rs, false⟩ :: s.resps, lastError := true, broken := true,
+                                  qpc := QPc.afterSend bad k }
+      have e0 : step s .sendFail = some s0 := by simp [step, hq, s0]
+      obtain ⟨pre, s1, hlen, hrun, h1, h2, h3⟩ := hack s0 rd hack'
+      refine ⟨.sendFail :: pre, s1, by simp; omega, ?_, h1, h2, h3⟩
+      simp only [run, e0]; exact hrun
+  · obtain ⟨pre, s1, hlen, hrun, h1, h2, h3⟩ := hack s rd hq
+    exact ⟨pre, s1, by omega, hrun, h1, h2, h3⟩
+
 theorem continues_of_inv {s : State} {f t : Nat} (hi : Inv s) (hr : s.rpc = .needBad f t) :
-    ∃ pre s', pre.length ≤ 2 ∧ run s (pre ++ [.schedBad, .checkErr]) = some s' ∧
+    ∃ pre s', pre.length ≤ 4 ∧ run s (pre ++ [.schedBad, .checkErr]) = some s' ∧
       (s'.rpc = .await ∨ (s'.rpc = .exited ∧ s'.lastError = true)) := by
   by_cases hl : s.queue.length < badDataCap
   · obtain ⟨s', h1, h2⟩ := sched_check hr hl
@@ -695,27 +1060,36 @@ theorem continues_of_inv {s : State} {f t : Nat} (hi : Inv s) (hr : s.rpc = .nee
     | nil => simp [hqu, badDataCap] at hlen
     | cons hd tl =>
       have htl : tl.length < badDataCap := by simp [hqu] at hlen; omega
+      -- one event takes a range out of the channel once the Responder is at a select / composing
+      have fin : ∀ (s0 : State), s0.rpc = .needBad f t → s0.queue = hd :: tl →
+          (s0.qpc = .idle ∨ (∃ rd, s0.qpc = .loaded rd) ∨ ∃ a rs k, s0.qpc = .composing a rs k) →
+          ∃ e s', run s0 ([e] ++ [.schedBad, .checkErr]) = some s' ∧
+            (s'.rpc = .await ∨ (s'.rpc = .exited ∧ s'.lastError = true)) := by
+        intro s0 h0 hq0 hpc
+        obtain ⟨e, s1, he, hr1, hl1⟩ := room_after_one h0 hq0 htl hpc
+        obtain ⟨s', h1, h2⟩ := sched_check hr1 hl1
+        refine ⟨e, s', ?_, h2⟩
+        simp only [List.cons_append, List.nil_append, run, he]; exact h1
       cases hqp : s.qpc with
       | idle =>
-        let s1 : State := { s with queue := tl, qpc := .composing hd.2 [hd] }
-        have e1 : step s .badRecv = some s1 := by simp [step, hqp, hqu, s1]
-        obtain ⟨s', h1, h2⟩ := sched_check (s := s1) (f := f) (t := t) hr htl
-        refine ⟨[.badRecv], s', by simp, ?_, h2⟩
-        simp only [List.cons_append, List.nil_append, run, e1]; exact h1
-      | composing a rs =>
-        let s1 : State := { s with queue := tl, qpc := .composing (if a < hd.2 then hd.2 else a) (rs ++ [hd]) }
-        have e1 : step s .badMore = some s1 := by simp [step, hqp, hqu, s1]
-        obtain ⟨s', h1, h2⟩ := sched_check (s := s1) (f := f) (t := t) hr htl
-        refine ⟨[.badMore], s', by simp, ?_, h2⟩
-        simp only [List.cons_append, List.nil_append, run, e1]; exact h1
-      | sending a rs bad =>
-        let s1 : State := { s with resps := ⟨a, rs, false⟩ :: s.resps, lastError := true, broken := true, qpc := .idle }
-        have e1 : step s .sendFail = some s1 := by simp [step, hqp, s1]
-        let s2 : State := { s1 with queue := tl, qpc := .composing hd.2 [hd] }
-        have e2 : step s1 .badRecv = some s2 := by simp [step, hqu, s1, s2]
-        obtain ⟨s', h1, h2⟩ := sched_check (s := s2) (f := f) (t := t) hr htl
-        refine ⟨[.sendFail, .badRecv], s', by simp, ?_, h2⟩
-        simp only [List.cons_append, List.nil_append, run, e1, e2]; exact h1
+        obtain ⟨e, s', h1, h2⟩ := fin s hr hqu (Or.inl hqp)
+        exact ⟨[e], s', by simp, h1, h2⟩
+      | loaded rd =>
+        obtain ⟨e, s', h1, h2⟩ := fin s hr hqu (Or.inr (Or.inl ⟨rd, hqp⟩))
+        exact ⟨[e], s', by simp, h1, h2⟩
+      | composing a rs k =>
+        obtain ⟨e, s', h1, h2⟩ := fin s hr hqu (Or.inr (Or.inr ⟨a, rs, k, hqp⟩))
+        exact ⟨[e], s', by simp, h1, h2⟩
+      | sending a rs bad k =>
+        obtain ⟨pre, s1, hlen1, hrun1, hr1, hq1, hp1⟩ := to_select (s := s) (Or.inl ⟨a, rs, bad, k, hqp⟩)
+        obtain ⟨e, s', h1, h2⟩ := fin s1 (hr1 ▸ hr) (hq1 ▸ hqu) (Or.inl hp1)
+        refine ⟨pre ++ [e], s', by simp; omega, ?_, h2⟩
+        rw [List.append_assoc, run_append, hrun1]; exact h1
+      | acking rd =>
+        obtain ⟨pre, s1, hlen1, hrun1, hr1, hq1, hp1⟩ := to_select (s := s) (Or.inr ⟨rd, hqp⟩)
+        obtain ⟨e, s', h1, h2⟩ := fin s1 (hr1 ▸ hr) (hq1 ▸ hqu) (Or.inl hp1)
+        refine ⟨pre ++ [e], s', by simp; omega, ?_, h2⟩
+        rw [List.append_assoc, run_append, hrun1]; exact h1
       | stopped =>
         have := (hi.stopR).mp (hi.stopQ hqp)
         rw [hr] at this; cases this
@@ -742,26 +1116,22 @@ theorem queue_empty_of_noPerm {s : State} (hi : Inv s) (hn : NoPerm s) :
   simp only [pendingBad, List.append_eq_nil_iff] at h1
   exact ⟨h1.2.1.2, h1.1⟩
 
-/-- runs without a permanent consumer error are tick-clean and never put anything into the bad-data
-    channel: the Responder degenerates to its tick branch -/
-theorem tickClean_of_noPerm : ∀ (evs : List Event) (s : State), Inv s → NoPerm s →
-    (∀ e ∈ evs, e ≠ .consume .perm) →
-    TickClean s evs ∧ ∀ s', run s evs = some s' → s'.queue = [] ∧ reported s' = []
-  | [], s, hi, hn, _ => by
-    refine ⟨trivial, ?_⟩
-    intro s' h; simp [run] at h; subst h
+/-- runs without a permanent consumer error never put anything into the bad-data channel and never
+    report a range: the Responder degenerates to its tick branch with the inner select always
+    taking `default:` -/
+theorem noPerm_run : ∀ (evs : List Event) (s s' : State), Inv s → NoPerm s →
+    (∀ e ∈ evs, e ≠ .consume .perm) → run s evs = some s' → s'.queue = [] ∧ reported s' = []
+  | [], s, s', hi, hn, _, h => by
+    simp [run] at h; subst h
     exact queue_empty_of_noPerm hi hn
-  | e :: es, s, hi, hn, he => by
-    have hq := (queue_empty_of_noPerm hi hn).1
-    cases hs : step s e with
-    | none => simp [TickClean, run, hs, hq]
-    | some s1 =>
-      have hst := step_sound hs
-      have ih := tickClean_of_noPerm es s1 (inv_step hi hst)
-        (noPerm_step hn (he e (by simp)) hst) (fun e' he' => he e' (by simp [he']))
-      simp only [TickClean, run, hs]
-      exact ⟨⟨fun _ => hq, ih.1⟩, ih.2⟩
-
+  | e :: es, s, s', hi, hn, he, h => by
+    simp only [run] at h
+    split at h
+    · rename_i s1 hs1
+      have hst := step_sound hs1
+      exact noPerm_run es s1 s' (inv_step hi hst) (noPerm_step hn (he e (by simp)) hst)
+        (fun e' he' => he e' (by simp [he'])) h
+    · cases h
 
 end Stef.Receiver
 
